@@ -27,8 +27,11 @@ def load_known():
 
 
 def write_evidence(prop, obj):
-    os.makedirs(os.path.join(VERIF, "evidence"), exist_ok=True)
-    p = os.path.join(VERIF, "evidence", f"{prop}.json")
+    # runs against a scratch copy of the repository (VERIF_REPO, used for seeded-change trials) must not overwrite
+    # the evidence of the registered checks, which is about /repo itself
+    sub = "evidence" if os.path.realpath(os.environ.get("VERIF_REPO", "/repo")) == "/repo" else os.path.join(".cache", "evidence-scratch")
+    os.makedirs(os.path.join(VERIF, sub), exist_ok=True)
+    p = os.path.join(VERIF, sub, f"{prop}.json")
     tmp = p + ".tmp"
     with open(tmp, "w") as f:
         json.dump(obj, f, indent=1, default=repr)
